@@ -58,6 +58,9 @@ func gen(a Args, out *Out) {
 		{14, connsim.FreeImmediate},
 		{12, connsim.FreeOversizeTail},
 		{12, connsim.WriteFail},
+		{10, connsim.FreeUnreadInbound},
+		{6, connsim.FreeLateInput},
+		{3, connsim.FreeMidFrameTimeout},
 	}
 	var jobs []job
 	var ins []Sx
@@ -69,9 +72,24 @@ func gen(a Args, out *Out) {
 			ins = append(ins, c.Sx())
 		}
 	}
+	rs := rng.Fork()
+	for k := 0; k < 8*mult; k++ {
+		kind, in := connsim.ServerScenario(rs)
+		jobs = append(jobs, job{kind, connsim.Cfg{Mode: 4}})
+		ins = append(ins, in)
+	}
 	results := connsim.RunBatch(ins)
 	for i, j := range jobs {
 		c := j.cfg
+		if c.Mode == 4 {
+			out.Case(j.kind, true, ins[i], results[i].Obs)
+			out.CountN("server-connections", ins[i].At(2).AsInt())
+			for _, n := range results[i].Notes {
+				out.Count("inconclusive-observation")
+				out.Note("%s: inconclusive: %s", j.kind, n)
+			}
+			continue
+		}
 		out.Case(j.kind, connsim.Nontrivial(c), ins[i], results[i].Obs)
 		np := 0
 		for _, s := range c.Senders {
